@@ -33,6 +33,7 @@ Cases == IF Tier = "guard"
          THEN { [samples |-> << Smp(<<LF, LG, LF>>, <<1, 3>>, <<>>, <<>>), Smp(<<LF, LFF>>, <<1, 0 - 2>>, <<>>, <<>>) >>, cfg |-> Cfg0("lines", FALSE)] }
          ELSE { [samples |-> << Smp(a, <<1, 3>>, <<>>, <<>>), Smp(b, <<1, 0 - 2>>, <<>>, <<>>) >>, cfg |-> Cfg0(g, ni)] :
                   a \in StackShapes, b \in StackShapes, g \in Grans, ni \in BOOLEAN }
+              \cup { [samples |-> << Smp(<<LF>>, <<1, 0>>, <<>>, <<>>), Smp(<<LG, LF>>, <<2, 0>>, <<>>, <<>>) >>, cfg |-> Cfg0(g, FALSE)] : g \in Grans }   \* every selected value is zero
               \cup { [samples |-> <<>>, cfg |-> Cfg0(g, FALSE)] : g \in Grans }                  \* no sample at all: only the root
 
 VARIABLES case, pc, idx, sources, stacks
